@@ -34,7 +34,7 @@ RULE = (
 )
 ASSUMPTIONS = ["the GIL makes single bytecodes atomic; preemption is modelled at line (quick) / opcode (thorough) boundaries of jaxtyping's own code"]
 SHARD_TIMEOUT = {"quick": 900, "thorough": 3600}
-RANDOM_SCHEDULES = {"quick": 14, "thorough": 320}  # per shard
+RANDOM_SCHEDULES = {"quick": 10, "thorough": 320}  # per shard
 NSHARDS = 16
 
 
@@ -242,8 +242,10 @@ def run_single_preemptions(rec, shard, tier):
             rec.violation("solo-nondeterministic", {"op": a}, f"{a} alone under tracing gives {res[0]} vs untraced {exp_a}", mechanism="tracing-changes-result")
             continue
         rec.info.setdefault("yield_points", []).append(f"{a}:{K}")
-        step = 1 if (tier == "thorough" or K <= 400) else 2
-        for k in range(1, K + 1, step):
+        # quick tier: at most ~120 preemption points per (operation, probe) pair, evenly spread; the
+        # offset rotates with the pair so that over the catalogue every residue class is visited
+        step = 1 if tier == "thorough" else max(1, K // 120)
+        for k in range(1 + (idx % step), K + 1, step):
             seen = {}
 
             def probe_and_peek():
